@@ -132,6 +132,7 @@ def run_property(prop, tier, *, jobs=None, only=None, verbose=False,
     solver_s = 0.0
     samples = []
     call_kinds: dict[str, int] = {}
+    native_repo: dict[str, int] = {}
     paths_total = 0
     for r in normal:
         if r["fault"]:
@@ -143,6 +144,9 @@ def run_property(prop, tier, *, jobs=None, only=None, verbose=False,
         for k, v in r["call_log"].items():
             kind = k.split(":", 1)[0]
             call_kinds[kind] = call_kinds.get(kind, 0) + v
+            if kind == "native" and k.split(":", 1)[1].startswith("pytato"):
+                native_repo[k.split(":", 1)[1]] = native_repo.get(
+                    k.split(":", 1)[1], 0) + v
         paths_total += r["paths"]
         if not r["obligations"] and not r["fault"] and not r["undecided"] \
                 and not r.get("generated_any_prop"):
@@ -310,6 +314,13 @@ def run_property(prop, tier, *, jobs=None, only=None, verbose=False,
                     f for c in core.REGISTRY.values()
                     if prop in c.properties for f in c.functions}),
                 call_site_treatment=call_kinds,
+                repo_callables_run_natively=dict(
+                    note="repository classes constructed / callables run by "
+                         "CPython instead of the interpreter (constructors, "
+                         "generated dataclass methods); still explored "
+                         "symbolically through operator overloading",
+                    items=dict(sorted(native_repo.items(),
+                                      key=lambda kv: -kv[1])[:40])),
                 structural_bound=pmeta.get("structural_bound", ""),
                 bounded_standins=[e for e in extra_summ
                                   if e.get("kind") == "bounded"],
